@@ -6,6 +6,7 @@ Oracle: itertools.combinations[_with_replacement] in the order scikit-learn's Po
 import itertools
 import z3
 from pyvc.api import Contract, contract
+from contracts._frames import query_frame
 from pyvc.values import Obj, NdArr, z
 
 F = "mlinsights/mlmodel/extended_features.py"
@@ -63,6 +64,7 @@ class Fit(Contract):
 
 
 @contract(F + "::ExtendedFeatures.transform", "C11")
+@query_frame("self")
 class Transform(Contract):
     variants = [(c, k) for c in CONFIGS for k in ("poly", "poly-slow")]
 
